@@ -8,8 +8,16 @@
 (*   agg    every aggregate function x comparison x constant               *)
 (*   chain  two and three selectors combined with && / ||                  *)
 (*   win    window edges, date bound, limit and order; {} ; tags/values    *)
+(*   portion  the evaluator: complexity answers around the thresholds, 1..3 *)
+(*          portions, every split of 2-3 traces over the portions, limits  *)
+(*          that are / are not reached by a portion, spans before the      *)
+(*          window and on both sides of a moved window start               *)
 (*   rand   cases listed in RandCases (seeded sample of the FULL bounds:   *)
-(*          3 traces x 3 spans x 2 attributes, whole grammar)              *)
+(*          3 traces x 3 spans x 2 attributes, whole grammar, 0..3         *)
+(*          portions with a random split)                                  *)
+(* Every PortEvery-th case (by hash) of the other layers is ALSO executed  *)
+(* in 2 or 3 portions (split derived from the hash): every term, tree      *)
+(* shape, aggregate and chain goes through the re-processed plan.          *)
 (* State graph: root -> one state per query ("part") -> one state per      *)
 (* (query, database) case.  (The intermediate level only exists to let     *)
 (* TLC's workers generate and check the cases in parallel.)                *)
@@ -23,7 +31,8 @@ CONSTANTS Layers,        \* set of layer names to enumerate
           Mods,          \* record layer -> sampling modulus for the export (1 = every case)
           Seed,          \* sample selector
           RandCases,     \* set of [q, db] records (generated, see tools/props/c11.py)
-          CodeFlags      \* deviation rules the planner is believed to have (subset of AllFlags)
+          CodeFlags,     \* deviation rules the planner is believed to have (subset of AllFlags)
+          PortEvery      \* 0 = never; n = every n-th case of term/bool/agg/chain/win runs in portions
 
 ASSUME CodeFlags \subseteq AllFlags
 
@@ -52,7 +61,8 @@ Search1(sel, from, to, limit) == Query("search", <<sel>>, <<>>, from, to, limit,
 RT(k, key, op, c, n, pfx) == [k |-> k, key |-> key, op |-> op, cs |-> c, cn |-> n, pfx |-> pfx]
 RA(fn, attr, op, c) == [fn |-> fn, attr |-> attr, op |-> op, c |-> c]
 RSel(sh, t, agg) == [sh |-> sh, t |-> t, agg |-> agg]
-RC(q, db) == [q |-> q, db |-> db]
+RC(q, db) == [q |-> q, db |-> db, cx |-> 0, part |-> [ti \in DOMAIN db |-> 0]]
+RCP(q, db, cx, part) == [q |-> q, db |-> db, cx |-> cx, part |-> part]
 
 Span(a, b, nm, dur, ts) == [a |-> a, b |-> b, nm |-> nm, dur |-> dur, ts |-> ts]
 At(s, ts) == [s EXCEPT !.ts = ts]
@@ -179,12 +189,63 @@ WinDB(q) ==
                             tr2 \in (IF Thorough THEN WinTracesSmall ELSE WinTraces1), tr3 \in WinTraces1}
 
 \* =========================================================================
+\* layer portion: the evaluator.  Window [1, 4) of ticks 0..3; a span is a function of (a, ts):
+\* b is numeric 3 at odd ticks and 1 at even ticks, dur is 3 from tick 2 on, so that cutting
+\* spans off a trace changes aggregates and duration terms as well.
+PS(a, ts) == Span(a, IF ts % 2 = 1 THEN "n3" ELSE "n1", "p", IF ts >= 2 THEN 3 ELSE 1, ts)
+PortSingles == {<<PS("sx", ts)>> : ts \in 0..3} \cup {<<PS("none", 2)>>}
+PortPairs == {<<PS("sx", 1), PS("sx", 3)>>, <<PS("sx", 0), PS("sx", 2)>>, <<PS("none", 1), PS("sx", 3)>>,
+              <<PS("sx", 1), PS("none", 3)>>, <<PS("none", 0), PS("sx", 2)>>, <<PS("sx", 2), PS("sx", 3)>>}
+PortTraces == PortSingles \cup PortPairs
+ASx == StrT("a", "=", "sx", ".")
+PortSels == {Sel1(ASx, NoAgg), Sel1(ASx, CountGt1),
+             Sel("or2", ASx, DurT(">", 2), Fill, Fill, NoAgg),
+             Sel("and2", StrT("a", "=~", "xy", "span."), NumT("b", ">", 2, "resource."), Fill, Fill, NoAgg),
+             Sel1(StrT("a", "!=", "sy", "."), [fn |-> "max", attr |-> "b", op |-> ">", c |-> 2])}
+PortQ1(lim) == {Search1(sel, 1, 4, lim) : sel \in PortSels}
+PortQ2(lim) == {Query("search", <<Sel1(ASx, NoAgg), Sel1(NumT("b", ">", 2, "."), NoAgg)>>, <<op>>, 1, 4, lim, "-") : op \in {"&&", "||"}}
+\* complexity answers: below / at the threshold, around two and three times the threshold
+PortCx == {Threshold, Threshold + 1, 2 * Threshold - 1, 2 * Threshold, 2 * Threshold + 1, 3 * Threshold}
+PortParts ==
+  {[layer |-> "portion", q |-> q, i |-> 0, cx |-> cx] : q \in PortQ1(1) \cup PortQ1(2) \cup PortQ2(1) \cup PortQ2(2), cx \in {Threshold, 2 * Threshold, 3 * Threshold}}
+  \cup {[layer |-> "portion", q |-> q, i |-> 1, cx |-> cx] : q \in {Search1(Sel1(ASx, NoAgg), 1, 4, 2)}, cx \in {0, Threshold - 1} \cup PortCx \cup {3 * Threshold + 1}}
+Splits(db, n) == IF n = 0 THEN {[ti \in DOMAIN db |-> 0]} ELSE [DOMAIN db -> 0..(n - 1)]
+TrCode(tr) == SeqSum([si \in DOMAIN tr |-> (si + 1) * SpanCode(tr[si])], 1, Len(tr))
+\* two traces: every split enumerates both roles, so unordered pairs are enough (quick)
+PortDB2 == {<<pp[1], pp[2]>> : pp \in {x \in PortTraces \X PortTraces : Thorough \/ TrCode(x[2]) >= TrCode(x[1])}}
+PortDB3 == {<<tr1, tr2, tr3>> : tr1 \in PortTraces, tr2 \in PortSingles,
+                                tr3 \in (IF Thorough THEN PortSingles ELSE {<<PS("sx", 1)>>, <<PS("sx", 3)>>, <<PS("none", 2)>>})}
+\* three portions: every trace in its own portion (both directions), two traces sharing the first /
+\* the last portion, a portion without a trace of its own
+PortSplits3 == {<<0, 1, 2>>, <<2, 1, 0>>, <<1, 0, 0>>, <<0, 2, 2>>} \cup (IF Thorough THEN {<<1, 1, 2>>, <<2, 0, 1>>} ELSE {})
+PortCases(p) ==
+  LET n == Portions(p.cx)
+  IN IF p.i = 1   \* the decision: how many executions
+     THEN {[db |-> db, cx |-> p.cx, part |-> [ti \in DOMAIN db |-> IF n = 0 THEN 0 ELSE (ti - 1) % n]] :
+             db \in {<<tr1, tr2, <<PS("sx", 1)>> >> : tr1 \in PortSingles, tr2 \in PortPairs}}
+     ELSE IF n = 1
+     THEN {[db |-> db, cx |-> p.cx, part |-> <<0, 0>>] :
+             db \in {x \in PortDB2 : Thorough \/ Len(x[1]) = 1}}
+     ELSE IF n = 2
+     THEN {[db |-> db, cx |-> p.cx, part |-> part] : db \in PortDB2, part \in Splits(<<1, 2>>, n)}
+     ELSE LET sel == p.q.sels[1]
+              three == Len(p.q.sels) = 1 /\ sel.sh \in {"s1", "or2"} /\ (Thorough \/ sel.agg.fn \in {"none", "count"})
+          IN IF ~three THEN {}
+             ELSE {[db |-> db, cx |-> p.cx, part |-> part] : db \in PortDB3, part \in PortSplits3}
+
+\* the other layers: every PortEvery-th case in 2 or 3 portions, the split derived from the hash
+AutoCx(h, q) == IF PortEvery > 0 /\ Splittable(q) /\ h % PortEvery = 0 THEN Threshold * (2 + ((h \div PortEvery) % 2)) ELSE 0
+AutoPart(h, db, cx) == LET n == Portions(cx)
+                       IN [ti \in DOMAIN db |-> IF n = 0 THEN 0 ELSE ((h \div 5) + ti * (1 + ((h \div 11) % 2))) % n]
+
+\* =========================================================================
 Parts ==
-  (IF "term" \in Layers THEN {[layer |-> "term", q |-> q, i |-> 0] : q \in TermQ} ELSE {})
-  \cup (IF "bool" \in Layers THEN {[layer |-> "bool", q |-> q, i |-> 0] : q \in BoolQ} ELSE {})
-  \cup (IF "agg" \in Layers THEN {[layer |-> "agg", q |-> q, i |-> 0] : q \in AggQ} ELSE {})
-  \cup (IF "chain" \in Layers THEN {[layer |-> "chain", q |-> q, i |-> 0] : q \in ChainQ} ELSE {})
-  \cup (IF "win" \in Layers THEN {[layer |-> "win", q |-> q, i |-> 0] : q \in WinQ} ELSE {})
+  (IF "term" \in Layers THEN {[layer |-> "term", q |-> q, i |-> 0, cx |-> 0] : q \in TermQ} ELSE {})
+  \cup (IF "bool" \in Layers THEN {[layer |-> "bool", q |-> q, i |-> 0, cx |-> 0] : q \in BoolQ} ELSE {})
+  \cup (IF "agg" \in Layers THEN {[layer |-> "agg", q |-> q, i |-> 0, cx |-> 0] : q \in AggQ} ELSE {})
+  \cup (IF "chain" \in Layers THEN {[layer |-> "chain", q |-> q, i |-> 0, cx |-> 0] : q \in ChainQ} ELSE {})
+  \cup (IF "win" \in Layers THEN {[layer |-> "win", q |-> q, i |-> 0, cx |-> 0] : q \in WinQ} ELSE {})
+  \cup (IF "portion" \in Layers THEN PortParts ELSE {})
 
 DBsOf(p) ==
   CASE p.layer = "term" -> TermDB
@@ -193,23 +254,34 @@ DBsOf(p) ==
     [] p.layer = "chain" -> ChainDB(p.q)
     [] p.layer = "win" -> WinDB(p.q)
 
+\* the cases of a part: database, complexity answer, hash class of every trace
+CasesOf(p) ==
+  IF p.layer = "portion" THEN PortCases(p)
+  ELSE {(LET h == QCode(p.q) + DbCode(db)
+             cx == AutoCx(h, p.q)
+         IN [db |-> db, cx |-> cx, part |-> AutoPart(h, db, cx)]) : db \in DBsOf(p)}
+PartCode(part) == SeqSum([ti \in DOMAIN part |-> (ti + 2) * part[ti]], 1, Len(part))
+
 Init == cs = [st |-> "root"]
 Next ==
   \/ /\ cs.st = "root"
-     /\ \/ \E p \in Parts : cs' = [st |-> "part", layer |-> p.layer, q |-> p.q, i |-> p.i]
+     /\ \/ \E p \in Parts : cs' = [st |-> "part", layer |-> p.layer, q |-> p.q, i |-> p.i, cx |-> p.cx]
         \/ /\ "rand" \in Layers
-           /\ \E c \in RandCases : cs' = [st |-> "case", layer |-> "rand", q |-> c.q, db |-> c.db, h |-> QCode(c.q) + DbCode(c.db), i |-> 0]
+           /\ \E c \in RandCases : cs' = [st |-> "case", layer |-> "rand", q |-> c.q, db |-> c.db, h |-> QCode(c.q) + DbCode(c.db), i |-> 0,
+                                           cx |-> c.cx, part |-> c.part]
   \/ /\ cs.st = "part"
-     /\ \E db \in DBsOf(cs) :
-          cs' = [st |-> "case", layer |-> cs.layer, q |-> cs.q, db |-> db, h |-> QCode(cs.q) + DbCode(db), i |-> cs.i]
+     /\ \E c \in CasesOf(cs) :
+          cs' = [st |-> "case", layer |-> cs.layer, q |-> cs.q, db |-> c.db,
+                 h |-> QCode(cs.q) + DbCode(c.db) + (IF cs.layer = "portion" THEN PartCode(c.part) + (c.cx \div 999983) ELSE 0),
+                 i |-> cs.i, cx |-> c.cx, part |-> c.part]
 Spec == Init /\ [][Next]_cs
 
 \* =========================================================================
 \* invariants (evaluated on the case states)
 IsCase == cs.st = "case"
 Def == Eval(cs.q, cs.db)
-Mech == PlanEval(cs.q, cs.db, CodeFlags)
-Ideal == PlanEval(cs.q, cs.db, {})
+Mech == RunEval(cs.q, cs.db, cs.cx, cs.part, CodeFlags)
+Ideal == RunEval(cs.q, cs.db, cs.cx, cs.part, {})
 
 \* the design of the plan (bit per term, groupBitOr, HAVING tree, INTERSECT / UNION ALL, limits) is right
 IdealConforms == IsCase => ConformsAll(Ideal, Def, cs.q, cs.db)
@@ -219,6 +291,8 @@ DefSaneOf(d) == /\ d.M \subseteq Traces(cs.db)
                 /\ \A ti \in d.M : d.ms[ti] # {}
                 /\ \A p \in d.seqs : Len(p) <= cs.q.limit
                 /\ (cs.q.kind = "search" => d.seqs # {})
+                /\ DOMAIN cs.part = DOMAIN cs.db
+                /\ \A ti \in DOMAIN cs.part : cs.part[ti] \in 0..(IF Portions(cs.cx) = 0 THEN 0 ELSE Portions(cs.cx) - 1)
 DefSane == IsCase => DefSaneOf(Def)
 
 \* the date bound of init.go is implied by the timestamp bound
@@ -243,7 +317,8 @@ CheckCase ==
         THEN LET m == Mech
                  cand == ~ConformsAll(m, d, cs.q, cs.db)
              IN PrintT(<<"C11CASE", ToJson([layer |-> cs.layer, h |-> cs.h, i |-> cs.i, q |-> TrimQ(cs.q), db |-> cs.db,
+                                             cx |-> cs.cx, np |-> IF Splittable(cs.q) THEN Portions(cs.cx) ELSE 0, part |-> cs.part,
                                              def |-> d, mech |-> m, cand |-> cand,
-                                             explain |-> IF cand THEN ExplainWith(cs.q, cs.db, d, CodeFlags) ELSE {}])>>)
+                                             explain |-> IF cand THEN ExplainRun(cs.q, cs.db, cs.cx, cs.part, d, CodeFlags) ELSE {}])>>)
         ELSE TRUE
 =============================================================================
